@@ -7,28 +7,28 @@ import (
 	rqsql "github.com/rqlite/sql"
 )
 
-// ndResidual is one non-deterministic call found in a statement text, with the
+// sqlhNDResidual is one non-deterministic call found in a statement text, with the
 // syntactic context it sits in.
-type ndResidual struct {
+type sqlhNDResidual struct {
 	Kind string // time-zeroarg time-fmtonly time-explicit-now random randomblob
 	Ctx  string // "" (plain expression position), "cte" (inside a WITH body), "isnull" (operand of IS [NOT] NULL / ISNULL / NOTNULL)
 }
 
-func (r ndResidual) String() string {
+func (r sqlhNDResidual) String() string {
 	if r.Ctx == "" {
 		return r.Kind
 	}
 	return r.Kind + "@" + r.Ctx
 }
 
-// findND parses text with rqlite's SQL parser and lists the non-deterministic
+// sqlhFindND parses text with rqlite's SQL parser and lists the non-deterministic
 // calls in it (the harness's own traversal: it descends into WITH bodies and
 // IS NULL operands itself). ok=false when the text does not parse; the caller
-// then falls back to the textual scan (residualND).
+// then falls back to the textual scan (c14ResidualND).
 //
 // This is used for DIAGNOSIS only (which violation class a finding belongs
 // to); detection rests on evaluation and on the textual scan.
-func findND(text string) (res []ndResidual, ok bool) {
+func sqlhFindND(text string) (res []sqlhNDResidual, ok bool) {
 	defer func() {
 		if recover() != nil {
 			res, ok = nil, false
@@ -38,7 +38,7 @@ func findND(text string) (res []ndResidual, ok bool) {
 	if err != nil {
 		return nil, false
 	}
-	f := &ndFinder{}
+	f := &sqlhNDFinder{}
 	if _, err := rqsql.Walk(f, st); err != nil {
 		return nil, false
 	}
@@ -46,24 +46,24 @@ func findND(text string) (res []ndResidual, ok bool) {
 	return f.out, true
 }
 
-type ndFinder struct {
+type sqlhNDFinder struct {
 	ctx     string
 	orderBy int
-	out     []ndResidual
+	out     []sqlhNDResidual
 }
 
-func isNowLit(e rqsql.Expr) bool {
+func sqlhIsNowLit(e rqsql.Expr) bool {
 	if s, ok := e.(*rqsql.StringLit); ok {
 		return strings.EqualFold(s.Value, "now")
 	}
 	return false
 }
 
-func (f *ndFinder) sub(ctx string, n rqsql.Node) {
+func (f *sqlhNDFinder) sub(ctx string, n rqsql.Node) {
 	if n == nil {
 		return
 	}
-	g := &ndFinder{ctx: ctx, orderBy: f.orderBy}
+	g := &sqlhNDFinder{ctx: ctx, orderBy: f.orderBy}
 	if f.ctx != "" {
 		g.ctx = f.ctx
 	}
@@ -71,7 +71,7 @@ func (f *ndFinder) sub(ctx string, n rqsql.Node) {
 	f.out = append(f.out, g.out...)
 }
 
-func (f *ndFinder) Visit(node rqsql.Node) (rqsql.Visitor, rqsql.Node, error) {
+func (f *sqlhNDFinder) Visit(node rqsql.Node) (rqsql.Visitor, rqsql.Node, error) {
 	switch n := node.(type) {
 	case *rqsql.WithClause:
 		for _, cte := range n.CTEs {
@@ -87,23 +87,23 @@ func (f *ndFinder) Visit(node rqsql.Node) (rqsql.Visitor, rqsql.Node, error) {
 		f.orderBy++
 	case *rqsql.Call:
 		name := strings.ToLower(n.Name.Name)
-		add := func(k string) { f.out = append(f.out, ndResidual{k, f.ctx}) }
+		add := func(k string) { f.out = append(f.out, sqlhNDResidual{k, f.ctx}) }
 		switch name {
 		case "date", "time", "datetime", "julianday", "unixepoch":
 			if len(n.Args) == 0 && n.Star.Line == 0 && n.Star.Offset == 0 {
 				add("time-zeroarg")
-			} else if len(n.Args) > 0 && isNowLit(n.Args[0]) {
+			} else if len(n.Args) > 0 && sqlhIsNowLit(n.Args[0]) {
 				add("time-explicit-now")
 			}
 		case "strftime":
 			if len(n.Args) == 1 {
 				add("time-fmtonly")
-			} else if len(n.Args) > 1 && isNowLit(n.Args[1]) {
+			} else if len(n.Args) > 1 && sqlhIsNowLit(n.Args[1]) {
 				add("time-explicit-now")
 			}
 		case "timediff":
 			for _, a := range n.Args {
-				if isNowLit(a) {
+				if sqlhIsNowLit(a) {
 					add("time-explicit-now")
 					break
 				}
@@ -123,7 +123,7 @@ func (f *ndFinder) Visit(node rqsql.Node) (rqsql.Visitor, rqsql.Node, error) {
 	return f, node, nil
 }
 
-func (f *ndFinder) VisitEnd(node rqsql.Node) (rqsql.Node, error) {
+func (f *sqlhNDFinder) VisitEnd(node rqsql.Node) (rqsql.Node, error) {
 	if _, ok := node.(*rqsql.OrderingTerm); ok {
 		f.orderBy--
 	}
